@@ -197,3 +197,25 @@ package requestmanager
 //@   ensures result == nil ==> old(id in rm.inProgressRequestStatuses) && old(rm.inProgressRequestStatuses[id].state) == graphsync.Paused && rm.inProgressRequestStatuses[id].state == graphsync.Queued
 //@   ensures result != nil ==> nPush == old(nPush)
 //@   callsite TaskQueue.PushTask argis "peertask.Task{Topic: id": assert $p == inProgressRequestStatus.p
+
+//@ -- ============================ C23: what PeerState reports is exactly the recorded state and the queue's lists ============================
+//@ transparent peertracker.PeerTrackerTopics
+//@ func fromPeerTopics
+//@   lenient
+//@   safety off
+//@   ensures pt == nil ==> len(result.Active) == 0 && len(result.Pending) == 0
+//@   ensures pt != nil ==> len(result.Active) == len(pt.Active) && len(result.Pending) == len(pt.Pending)
+//@   ensures pt != nil ==> (forall i int :: 0 <= i && i < len(pt.Active) ==> result.Active[i] == pt.Active[i])
+//@   ensures pt != nil ==> (forall i int :: 0 <= i && i < len(pt.Pending) ==> result.Pending[i] == pt.Pending[i])
+//@   loop 1 invariant len(active) == idx1 && (forall i int :: 0 <= i && i < idx1 ==> active[i] == pt.Active[i])
+//@   loop 2 invariant len(active) == len(pt.Active) && (forall i int :: 0 <= i && i < len(pt.Active) ==> active[i] == pt.Active[i])
+//@   loop 2 invariant len(pending) == idx2 && (forall i int :: 0 <= i && i < idx2 ==> pending[i] == pt.Pending[i])
+//@ -- the reported states are exactly the recorded states of this peer's requests
+//@ func RequestManager.peerStats.func1
+//@   lenient
+//@   safety off
+//@   modifies alloc
+//@   ensures forall k graphsync.RequestID :: (k in peerState.RequestStates) <==> (k in rm.inProgressRequestStatuses && rm.inProgressRequestStatuses[k].p == p)
+//@   ensures forall k graphsync.RequestID :: k in peerState.RequestStates ==> peerState.RequestStates[k] == rm.inProgressRequestStatuses[k].state
+//@   loop 1 invariant forall k graphsync.RequestID :: (k in requestStates) <==> (seen1[k] && rm.inProgressRequestStatuses[k].p == p)
+//@   loop 1 invariant forall k graphsync.RequestID :: k in requestStates ==> requestStates[k] == rm.inProgressRequestStatuses[k].state
